@@ -133,19 +133,19 @@ Qed.
 
 (* ---------- render_link: which branch ---------- *)
 
-Lemma render_link_is_unknown P d l : p_all_external P = false ->
+Lemma render_link_is_unknown P d l : plain_url_mode P = false ->
   startswith (l_dest l) s_hash = false -> scheme_of (l_dest l) = None -> l_auto l = false ->
   render_link P d l = render_link_unknown P d l.
 Proof. intros H0 H1 H2 H3. unfold render_link. rewrite H0, H1, H2, H3. reflexivity. Qed.
 
-Lemma render_link_is_project P d l rest : p_all_external P = false ->
+Lemma render_link_is_project P d l rest : plain_url_mode P = false ->
   l_dest l = s_project ++ c_colon :: rest -> mem_str s_project (p_url_schemes P) = false ->
   render_link P d l = render_link_project P d l.
 Proof.
   intros H0 H1 H2. unfold render_link. rewrite H0, H1. rewrite scheme_of_project. rewrite H2. reflexivity.
 Qed.
 
-Lemma render_link_is_path P d l rest : p_all_external P = false ->
+Lemma render_link_is_path P d l rest : plain_url_mode P = false ->
   l_dest l = s_path ++ c_colon :: rest -> mem_str s_path (p_url_schemes P) = false ->
   render_link P d l = render_link_path P d l.
 Proof.
@@ -203,7 +203,7 @@ Section Spellings.
   Hypothesis Hdir : segs_ok (d_dir d).
   Hypothesis Htp : Forall name_ok tp.
   Hypothesis Hsp : spells (d_dir d) tp sp.
-  Hypothesis Hext : p_all_external P = false.
+  Hypothesis Hext : plain_url_mode P = false.
 
   Lemma sp_loc : relfn2path (p_srcdir P) (d_dir d) sp = Inside tp.
   Proof. apply relfn2path_spells; assumption. Qed.
@@ -303,7 +303,7 @@ End Spellings.
 (* every spelling of a file below the source directory, in every link form *)
 Theorem path_spellings_all : forall (P : project) (d : docrec) (tp : list str) (sp : str),
   segs_ok (p_srcdir P) -> segs_ok (d_dir d) -> Forall name_ok tp -> spells (d_dir d) tp sp ->
-  p_all_external P = false ->
+  plain_url_mode P = false ->
   relfn2path (p_srcdir P) (d_dir d) sp = Inside tp
   /\ (forall dn frag ch,
         is_file P (Inside tp) = true -> path2doc (p_suffixes P) (Inside tp) = Some dn -> dn <> [] ->
@@ -350,7 +350,7 @@ Theorem unknown_docname_anchor : forall P d bn tdn sp frag ch td,
   segs_ok (d_dir d) -> seg_ok bn -> d_name d = join s_slash (d_dir d ++ [bn]) ->
   Forall name_ok tdn -> spells (d_dir d) tdn sp ->
   is_file P (relfn2path (p_srcdir P) (d_dir d) sp) = false ->
-  find_doc (p_docs P) (join s_slash tdn) = Some td -> p_all_external P = false ->
+  find_doc (p_docs P) (join s_slash tdn) = Some td -> plain_url_mode P = false ->
   render_link P d (mklink (with_frag sp (Some frag)) false ch) = C_doc (join s_slash tdn) (Some frag).
 Proof.
   intros P d bn tdn sp frag ch td Hdir Hbn Hname Ht Hsp Hf Hfind Hext.
@@ -432,7 +432,7 @@ Theorem relative_docs_same_target : forall P d prefix cm r t k frag ch dn,
   (match frag with Some f => ~ In c_slash f | None => True end) ->
   startswith (with_frag (rel_spelling k r t) frag) prefix = true ->
   is_file P (Inside (cm ++ t)) = true -> path2doc (p_suffixes P) (Inside (cm ++ t)) = Some dn -> dn <> [] ->
-  p_all_external P = false ->
+  plain_url_mode P = false ->
   render_link P d (mklink_inc (with_frag (rel_spelling k r t) frag) false ch prefix (cm ++ r)) = C_doc dn frag.
 Proof.
   intros P d prefix cm r t k frag ch dn Hs Hsne Hd Hc Hr Htp Hne Hnp Hfr Hpre Hf Hdoc Hdn Hext.
@@ -498,7 +498,7 @@ Lemma download_resolvable P d l rt shown : render_link P d l = C_download rt sho
   contains rt s_css = true \/ is_readable P (relfn2path (p_srcdir P) (d_dir d) rt) = true.
 Proof.
   unfold render_link.
-  destruct (p_all_external P); [discriminate|].
+  destruct (plain_url_mode P); [discriminate|].
   destruct (startswith (l_dest l) s_hash); [discriminate|].
   destruct (match scheme_of (l_dest l) with Some s => mem_str s (p_url_schemes P) | None => false end); [discriminate|].
   destruct (opt_str_eqb (scheme_of (l_dest l)) s_inv); [discriminate|].
@@ -724,7 +724,7 @@ Definition wit_project : project :=
   {| p_srcdir := [[115; 114; 99]]; p_suffixes := [[46; 114; 115; 116]; [46; 109; 100]];
      p_docs := [{| d_name := [105; 110; 100; 101; 120]; d_dir := []; d_title := [73]; d_slugs := []; d_local := [] |}];
      p_labels := []; p_files := [[[105; 110; 100; 101; 120; 46; 109; 100]]];
-     p_nitpick := []; p_url_schemes := []; p_dirhtml := false; p_all_external := false |}.
+     p_nitpick := []; p_url_schemes := []; p_dirhtml := false; p_all_external := false; p_commonmark_only := false; p_gfm_only := false |}.
 
 Definition wit_doc : docrec :=
   {| d_name := [105; 110; 100; 101; 120]; d_dir := []; d_title := [73]; d_slugs := []; d_local := [] |}.
